@@ -33,7 +33,12 @@ def run(repo: Repo, rep, tier: str):
     raw_inverse_paths(repo, rep, "C05", "R1")
     from . import c10
     c10.inverse_pairs(repo, rep, "C05", "R1a")
+    from . import c02
+    c02.cmid_record_pair(repo, rep, "C05", "R1b")        # MIDI binding records: writer ∘ reader = identity, so they cannot drift
     purity(repo, rep, "C05")
+    # what an object saves depends only on that object: no class-level table that loading/editing another object writes into
+    from . import c17
+    c17.shared_class_state_rule(repo, rep, "C05", rule="R2s")
     lenient_read(repo, rep, "C05")
     canonical_forms(repo, rep, "C05")
 
